@@ -708,10 +708,12 @@ def gen_histories(tier, rng):
             calls = [["call", {"op": "front1", "p": None, "e": 1}], ["call", {"op": "trail1", "p": [0, 2]}], ["call", {"op": "front1", "p": [0, 1], "e": None}]]
             yield {"op": "rsess", "dim": 1, "r": list(r), "m": None, "steps": calls + [["setregion", list(r2)]] + calls + [["state"]]}
     # ---- large coordinates (value range): every region-valued operation, python ints and numpy int64
-    for n in range(1500 if big else 200):
-        B = rng.choice([10 ** 3, 2 ** 15, 2 ** 16 + 1, 2 ** 31, 2 ** 32 + 5, 10 ** 12, 2 ** 40])
+    for n in range(1500 if big else 320):
+        B = rng.choice([2 ** 15, 2 ** 16 + 1, 2 ** 31, 2 ** 32 + 5, 2 ** 33, 10 ** 12, 2 ** 40])
         def big_region(H, W):
             y0 = rng.randint(0, H - 1); y1 = rng.randint(y0 + 1, H); x0 = rng.randint(0, W - 1); x1 = rng.randint(x0 + 1, W)
+            if rng.random() < 0.4: y0 = rng.randint(0, 9); y1 = y0 + rng.randint(1, 9)        # small region in a huge frame
+            if rng.random() < 0.4: x0 = rng.randint(0, 9); x1 = x0 + rng.randint(1, 9)
             if rng.random() < 0.3: y1 = H
             if rng.random() < 0.3: x0 = 0
             return [y0, y1, x0, x1]
